@@ -161,42 +161,93 @@ func (m *model) under(p []byte, off int64) (int, error) {
 	return n, err
 }
 
-func (m *model) write(p []byte) (int, error) {
-	if m.cur >= m.limit {
-		return 0, io.ErrShortWrite
+// latitude is what the statement leaves open next to the model's primary answer.
+type latitude struct {
+	altErr error // also acceptable instead of the primary error (same count)
+	nilOK  bool  // (count, nil) is acceptable too: an EMPTY request that an implementation need not hand down
+	loose  bool  // negative WriteAt offset: only "nothing passed through" is required
+}
+
+// ownEndOr is the end of the writer's own section (for a stacked writer it may lie beyond limit, the
+// point where the inner section ends).
+func (m *model) sectionEnd() int64 {
+	if m.ownEnd != 0 {
+		return m.ownEnd
 	}
+	return m.limit
+}
+
+func (m *model) write(p []byte) (int, error, latitude) {
+	var lat latitude
+	if m.cur >= m.limit {
+		// at or beyond the section end: ErrShortWrite, also for an empty request ("starts at or beyond").
+		// Inside the own section but beyond the inner one, the refusal is the INNER writer's: an empty
+		// request that is not handed down sees no error.
+		lat.nilOK = len(p) == 0 && m.cur < m.sectionEnd()
+		return 0, io.ErrShortWrite, lat
+	}
+	empty := len(p) == 0
 	var err error
+	trunc := false
 	if room := m.limit - m.cur; int64(len(p)) > room {
 		p = p[:room]
 		err = io.ErrShortWrite
+		trunc = true
 	}
 	n, e := m.under(p, m.cur)
 	m.cur += int64(n)
 	if e != nil {
 		err = e
+		if trunc { // truncated AND the underlying writer failed: the statement does not rank the two errors
+			lat.altErr = io.ErrShortWrite
+		}
+		lat.nilOK = empty // an underlying error can only be propagated if the (empty) request was handed down
 	}
-	return n, err
+	return n, err, lat
 }
 
-// writeAt: second result says "only non-nil is required" (negative offsets).
-func (m *model) writeAt(p []byte, o int64) (int, error, bool) {
+func (m *model) writeAt(p []byte, o int64) (int, error, latitude) {
+	var lat latitude
 	if o < 0 {
-		return 0, io.ErrShortWrite, true
+		lat.loose = true
+		return 0, io.ErrShortWrite, lat
 	}
 	if o >= m.limit-m.base {
-		return 0, io.ErrShortWrite, false
+		lat.nilOK = len(p) == 0 && o+m.base < m.sectionEnd()
+		return 0, io.ErrShortWrite, lat
 	}
 	abs := o + m.base
+	empty := len(p) == 0
 	var err error
+	trunc := false
 	if room := m.limit - abs; int64(len(p)) > room {
 		p = p[:room]
 		err = io.ErrShortWrite
+		trunc = true
 	}
 	n, e := m.under(p, abs)
 	if e != nil {
 		err = e
+		if trunc {
+			lat.altErr = io.ErrShortWrite
+		}
+		lat.nilOK = empty
 	}
-	return n, err, false
+	return n, err, lat
+}
+
+// accepts: the library's answer against the model's primary answer and its latitude.
+func accepts(gn int, gerr error, wn int, werr error, lat latitude) bool {
+	if gn != wn {
+		return false
+	}
+	if sameErr(gerr, werr) {
+		return true
+	}
+	if lat.altErr != nil && sameErr(gerr, lat.altErr) {
+		return true
+	}
+	return lat.nilOK && gerr == nil
 }
 
 func (m *model) seek(offset int64, whence int) (int64, bool) {
@@ -225,6 +276,9 @@ func (m *model) seek(offset int64, whence int) (int64, bool) {
 }
 
 // ---------------------------------------------------------------- check
+
+// bounded2: kinds with a real end (AtToWriter and AtToWriter-over-a-section have "no practical end" of their own).
+func bounded2(kind string) bool { return kind == "section" || kind == "nested-section" }
 
 func sameErr(got, want error) bool {
 	if want == nil {
@@ -287,13 +341,13 @@ func check(c Case) *vk.Failure {
 		case "write":
 			buf := pattern(si, op.Len)
 			keep := append([]byte(nil), buf...)
-			wn, werr := m.write(keep)
+			wn, werr, lat := m.write(keep)
 			var gn int
 			var gerr error
 			if f := vk.Try(step, func() { gn, gerr = w.Write(buf) }); f != nil {
 				return f
 			}
-			if gn != wn || !sameErr(gerr, werr) {
+			if !accepts(gn, gerr, wn, werr, lat) {
 				return vk.Failf("write-result", "%s: Write returned (%d, %v), model (%d, %v)", step, gn, gerr, wn, werr)
 			}
 			if string(buf) != string(keep) {
@@ -305,17 +359,22 @@ func check(c Case) *vk.Failure {
 			}
 			buf := pattern(si, op.Len)
 			keep := append([]byte(nil), buf...)
-			wn, werr, loose := m.writeAt(keep, op.O)
+			if !bounded2(c.Kind) && op.O > 1<<61 {
+				continue // "no practical end": offsets next to MaxInt64 are outside what AtToWriter promises
+			}
+			wn, werr, lat := m.writeAt(keep, op.O)
 			var gn int
 			var gerr error
 			if f := vk.Try(step, func() { gn, gerr = wat.WriteAt(buf, op.O) }); f != nil {
 				return f
 			}
-			if loose {
-				if gn != 0 || gerr == nil {
-					return vk.Failf("writeat-negative", "%s: WriteAt at a negative offset returned (%d, %v), want (0, non-nil)", step, gn, gerr)
+			if lat.loose {
+				// the statement is silent on negative offsets: nothing may pass through (the image comparison
+				// below sees any byte that does), so the count must be 0; the error value is open
+				if gn != 0 {
+					return vk.Failf("writeat-negative", "%s: WriteAt at a negative offset returned count %d (err %v), want 0", step, gn, gerr)
 				}
-			} else if gn != wn || !sameErr(gerr, werr) {
+			} else if !accepts(gn, gerr, wn, werr, lat) {
 				return vk.Failf("writeat-result", "%s: WriteAt returned (%d, %v), model (%d, %v)", step, gn, gerr, wn, werr)
 			}
 		case "seek":
@@ -324,12 +383,15 @@ func check(c Case) *vk.Failure {
 			}
 			before := m.cur
 			wpos, ok := m.seek(op.O, op.Whence)
+			beyond := ok && m.cur > m.sectionEnd() // io.Seeker: seeking past the end "may be allowed" - or refused
 			var gpos int64
 			var gerr error
 			if f := vk.Try(step, func() { gpos, gerr = seeker.Seek(op.O, op.Whence) }); f != nil {
 				return f
 			}
-			if ok {
+			if ok && beyond && gerr != nil {
+				m.cur = before // refused: the cursor must not have moved (the following writes show it)
+			} else if ok {
 				if gerr != nil || gpos != wpos {
 					return vk.Failf("seek-result", "%s: Seek returned (%d, %v), model (%d, nil)", step, gpos, gerr, wpos)
 				}
@@ -417,7 +479,7 @@ func classify(c Case) (bool, []string) {
 			var n int
 			var err error
 			if op.K == "write" {
-				n, err = m.write(pattern(si, op.Len))
+				n, err, _ = m.write(pattern(si, op.Len))
 			} else {
 				n, err, _ = m.writeAt(pattern(si, op.Len), op.O)
 			}
@@ -453,7 +515,7 @@ func classify(c Case) (bool, []string) {
 
 func genCase(t *rapid.T) Case {
 	c := Case{Kind: "section"}
-	c.Off = rapid.SampledFrom([]int64{0, 1, 7, 100, 1<<32 + 5}).Draw(t, "off")
+	c.Off = rapid.SampledFrom([]int64{0, 1, 7, 100, 1<<32 + 5, 1 << 62}).Draw(t, "off")
 	c.N = rapid.SampledFrom([]int64{0, 1, 2, 8, 64, 8, 64}).Draw(t, "n")
 	if gen.Chance(t, 1, 6, "attowriter") {
 		c.Kind, c.N = "attowriter", 0
@@ -555,6 +617,7 @@ func TestGrid(t *testing.T) {
 		{Kind: "section", Off: 100, N: 8, Fault: Fault{Kind: "none"}, Ops: []Op{{K: "seek", O: 2, Whence: 0}, {K: "write", Len: 2}, {K: "seek", O: -1, Whence: 1}, {K: "write", Len: 9}, {K: "seek", O: -3, Whence: 2}, {K: "write", Len: 1}}},
 		{Kind: "section", Off: 1, N: 64, Fault: Fault{Kind: "capacity", C: 10}, Ops: []Op{{K: "write", Len: 5}, {K: "write", Len: 10}, {K: "write", Len: 1}, {K: "writeat", Len: 4, O: 7}}},
 		{Kind: "attowriter", Off: 1<<32 + 5, Fault: Fault{Kind: "oneshot", C: 1<<32 + 5 + 9}, Ops: []Op{{K: "write", Len: 5}, {K: "write", Len: 10}, {K: "write", Len: 1}, {K: "seek", O: 3, Whence: 0}, {K: "write", Len: 2}}},
+		{Kind: "attowriter", Off: 1 << 62, Fault: Fault{Kind: "none"}, Ops: []Op{{K: "write", Len: 5}, {K: "write", Len: 10}, {K: "writeat", Len: 4, O: 1 << 40}, {K: "write", Len: 2}}}, // far start, still "no practical end"
 		{Kind: "section", Off: 0, N: 0, Fault: Fault{Kind: "none"}, Ops: []Op{{K: "write", Len: 0}, {K: "write", Len: 1}, {K: "writeat", Len: 0, O: 0}, {K: "seek", O: 0, Whence: 2}, {K: "size"}}},
 		// writers stacked on a SectionWriter whose start is not 0
 		{Kind: "nested-at", Off: 40, N: 24, Off2: 8, Fault: Fault{Kind: "none"}, Ops: []Op{{K: "write", Len: 10}, {K: "write", Len: 10}, {K: "write", Len: 1}, {K: "writeat", Len: 30, O: 2}}},
